@@ -382,6 +382,17 @@ func Run(c *vk.Ctx) {
 			c.Finish()
 			return
 		}
+		var dc DupCase
+		c.LoadReplay(&dc)
+		if dc.Dup {
+			f := runDup(dc)
+			fmt.Printf("replay same printed name %+v\nresult: %s\n", dc, f)
+			if f != "" {
+				c.Violate("replay", f, dc)
+			}
+			c.Finish()
+			return
+		}
 		var mv MVCase
 		c.LoadReplay(&mv)
 		if mv.MethodValue {
